@@ -58,9 +58,9 @@ def model_runs(chk, out):
     """(A).  Runs in a thread next to the campaign; results are put into `out`."""
     try:
         w = 4
-        out["req"] = vlib.tlc("LibFile", "LibFileRequired", workers=w, timeout=900, coverage=True)
+        out["req"] = vlib.tlc("LibFile", "LibFileRequired", workers=w, timeout=900)
         out["inv"] = vlib.tlc("LibFile", "LibFileAsWrittenInv", workers=w, timeout=900)
-        out["asw"] = vlib.tlc("LibFile", "LibFileAsWritten", workers=w, timeout=900)
+        out["asw"] = vlib.tlc("LibFile", "LibFileAsWritten", workers=w, timeout=900, coverage=True)
         out["nosum"] = vlib.tlc("LibFile", "LibFileRequiredNoSum", workers=w, timeout=900)
     except Exception as e:     # re-raised in the main thread
         out["error"] = e
@@ -136,8 +136,8 @@ def run(chk, tier):
         chk.violation("design model: the required reader violates %s" % req.violated, req.trace_text,
                       key={"model": "LibFile", "cfg": "LibFileRequired", "inv": req.violated})
     for act in ("PutSection", "PutHeader", "Crash", "Damage", "GetHeader", "ChkHeader", "GetSection", "Finish"):
-        if req.coverage.get(act, (0, 0))[0] == 0:
-            raise vlib.MachineryError("LibFileRequired never took action %s" % act)
+        if asw.coverage.get(act, (0, 0))[0] == 0:
+            raise vlib.MachineryError("LibFileAsWritten never took action %s" % act)
     for name, r in (("LibFileAsWritten", asw), ("LibFileRequiredNoSum", nosum)):
         if r.violated:
             chk.violation("design model %s violates %s" % (name, r.violated), r.trace_text,
